@@ -719,7 +719,10 @@ Section Resolve.
             | (None, es) => (vs, errs ++ es)%list
             end in
           let '(vs, errs) := fold_left step rvs ([], []) in
-          let words := flat_map (fun v => match v_word v with Some w => [snd w] | None => [] end) vs in
+          (* only a true value designates the word variant (`word = false` opts out) *)
+          let words := flat_map (fun v => match v_word v with Some (true, s) => [s] | _ => [] end) vs in
+          (* [Core::validate_body]: at most one flatten field per struct variant *)
+          let v0 := flat_map (fun v => flatten_errors (v_fields v)) vs in
           let v1 :=
             match words, c_from_word c with
             | _ :: _, Some sp => [with_span sp (custom "`from_word` cannot be used with an enum that also uses `word`")]
@@ -730,7 +733,7 @@ Section Resolve.
             | _ :: _ :: _ => map (fun s => with_span s (custom "`#[darling(word)]` can only be applied to one variant")) words
             | _ => []
             end in
-          (Some (SEnum vs), (errs ++ v1 ++ v2)%list)
+          (Some (SEnum vs), (errs ++ v0 ++ v1 ++ v2)%list)
     end.
 
   (** ** The whole derive *)
